@@ -63,6 +63,8 @@ def slice_from {α} (a : Array α) (r : RangeIter) : M (Array α) := if r.lo.toN
 def slice_to {α} (a : Array α) (r : RangeIter) : M (Array α) := if r.hi.toNat ≤ a.size then .ok (a.extract 0 r.hi.toNat) else .error .index
 def slice_range {α} (a : Array α) (r : RangeIter) : M (Array α) := if r.lo ≤ r.hi ∧ r.hi.toNat ≤ a.size then .ok (a.extract r.lo.toNat r.hi.toNat) else .error .index
 @[inline] def toInt_enum (b : Enum) : Int := b
+/-- `<[T]>::len` -/
+@[inline] def len_x {α} (a : Array α) : UInt64 := UInt64.ofNat a.size
 
 @[inline] def add_f64 (a b : F64) : F64 := F64.of (a.f + b.f)
 @[inline] def add_f32 (a b : F32) : F32 := F32.of (a.f + b.f)
